@@ -150,6 +150,23 @@ def apply_inner(reply, ops):
     for op in ops:
         kind = op["op"]
         nodes = [(p, n) for p, n in tree.walk()]
+        if kind == "len_past_parent":
+            # declare a length that runs past the enclosing element by `delta` octets
+            offs = snmp.node_offsets(tree)
+            idx = 1 + op["node"] % (len(nodes) - 1) if len(nodes) > 1 else 0
+            path, node = nodes[idx]
+            if node.raw is not None:
+                continue
+            parent_end = offs[0][2]
+            if path:
+                pidx = next(i for i, (p, _) in enumerate(nodes) if p == path[:-1])
+                parent_end = offs[pidx][2]
+            remaining = parent_end - offs[idx][1]
+            node.len_override = remaining + max(1, op["delta"])
+            label["wf"] = False
+            label["why"] = "length-past-parent"
+            label["tampered"] = node.name
+            continue
         if kind in ("del", "dup", "swap_tag", "len", "set_content", "trunc_content", "raw"):
             idx = op["node"] % len(nodes)
             path, node = nodes[idx]
